@@ -81,6 +81,19 @@ def counter_bounds(f):
             return slice_len(v[2][0])
         if n == 'count' and v[2] and tag(v[2][0]) == 'call' and short(v[2][0][1]) in ('take_while', 'filter') and v[2][0][2]:
             return slice_len(v[2][0][2][0])
+        if n == 'unwrap_or' and len(v[2]) == 2 and tag(v[2][0]) == 'call' and short(v[2][0][1]) == 'position' and v[2][0][2]:
+            # it.position(p).unwrap_or(d): an offset into `it` (0..trip-1) or the default
+            it = v[2][0][2][0]
+            while tag(it) == 'call' and short(it[1]) in ('into_iter', 'by_ref') and it[2]:
+                it = it[2][0]
+            trip = psub(poly(it[2]), poly(it[1])) if tag(it) == 'range' else slice_len(it)
+            if trip is None:
+                return None
+            d = poly(v[2][1])
+            diff = pconst(psub(d, psub(trip, {(): 1})))
+            if diff is None:
+                return None
+            return d if diff >= 0 else psub(trip, {(): 1})
         return None
     cands = set()
     for s_, d_, c, v in f.edge_conditions():
